@@ -2,8 +2,8 @@
 
 CLAIMED = {
     "C03": dict(
-        text="Deductive proof (Verus) of the real text of AssemblyCode::check_branches, cut from /repo on every run: on return every conditional branch is within 127 declared bytes of its nearest label; each repair leaves head and tail untouched, inserts only branches/JMP/labels, and the inserted segment takes the same exit as the removed branch(es) for every N/Z/C (all six kinds and both less-or-equal pairs).",
-        note="Assumes: branch targets defined in the same function (A-targets), resource bound re-assumed per repair iteration (A-cb-bounded; termination unproved), fresh .fixN labels differ from the branch's own label (A-fixfresh), std::fmt decimal rendering, vstd specs. Declared sizes equal encoded sizes is C04.",
+        text="Deductive proof (Verus) of the real text of AssemblyCode::check_branches, cut from /repo on every run: on return every conditional branch is within 127 declared bytes of its nearest label; each repair leaves head and tail untouched, inserts only branches/JMP/labels, and the inserted segment takes the same exit as the removed branch(es) for every N/Z/C (all six kinds and both less-or-equal pairs); preservation of 'every branch target is defined' by a repair is proved, not assumed. The check also runs asm()'s byte-count obligations (U-asm), since distances are measured in declared bytes.",
+        note="Assumes: branch targets defined in the same function on entry (A-targets), resource bound re-assumed per repair iteration (A-cb-bounded; termination unproved), fresh .fixN labels differ from the branch's own label (A-fixfresh), std::fmt decimal rendering, vstd specs. Declared sizes equal encoded sizes is C04.",
         technique="contract-based deductive verification (Verus loop invariants + lemmas on the function extracted mechanically from /repo)",
         design="DESIGN.md section 5, C03"),
     "C04": dict(
@@ -15,8 +15,8 @@ CLAIMED = {
 
 CLAIMED.update({
     "C13": dict(
-        text="Deductive proof (Verus): asm() emits an instruction only in an addressing mode the 6502 has for that mnemonic (mode derived from the emitted operand text), errors emit nothing; check_branches defines each fresh .fixN label exactly once after its reference.",
-        note="Partial: label uniqueness from the generator's counters, goto labels and inline-assembly symbols are not under contract. asm()'s caller obligations (spec fn caller_legal: what asm does not itself reject) are preconditions, not proved at call sites. A-isa, A-zp, A-fmt, vstd.",
+        text="Deductive proof (Verus): asm() emits an instruction only in an addressing mode the 6502 has for that mnemonic (mode derived from the emitted operand text), errors emit nothing; check_branches defines each fresh .fixN label exactly once after its reference; every one of the 39 sites that mint a local label `.<kind><counter>` increments that counter before control reaches another mint, a self call or a loop head (label minting discipline); generate_shift_16bits is verified against asm()'s precondition and its dispatch in generate_expr against its own precondition.",
+        note="Partial: goto labels and inline-assembly symbols are not under contract. asm()'s caller obligations (spec fn caller_legal: what asm does not itself reject) are preconditions, proved at the call sites of U-csleep, U-shift16 and U-plusplus only. A-isa, A-zp, A-fmt, vstd.",
         technique="contract-based deductive verification (Verus, functions extracted mechanically from /repo)",
         design="DESIGN.md section 5, C13"),
     "C17": dict(
@@ -28,8 +28,8 @@ CLAIMED.update({
 
 CLAIMED.update({
     "C09": dict(
-        text="Deductive proof (Verus) that the real body of compile_quoted_string_ex returns decode(s) for every input string, decode being written from the property's escape table (\\n \\r \\t \\a \\b \\f \\v \\0, any other escaped character stands for itself, a lone trailing backslash is dropped).",
-        note="Partial: extraction of literals before comment/macro processing (cpp::process), NUL termination/concatenation (compile_quoted_string, pest Pairs) and literal sizes are not under contract. vstd prophetic iterator spec of str::chars; char::from_u32 assumed specification; termination unproved.",
+        text="Deductive proof (Verus) that the real body of compile_quoted_string_ex returns decode(s) for every input string, decode being written from the property's escape table (\\n \\r \\t \\a \\b \\f \\v \\0, any other escaped character stands for itself, a lone trailing backslash is dropped); the literal window of cpp::process (R8) numbers the markers with the same counter that indexes the literal table, in skipped text as well.",
+        note="Partial: recognition of the literal's extent by the scanner of cpp::process (before comment/macro processing), NUL termination/concatenation (compile_quoted_string, pest Pairs) and literal sizes are not under contract. vstd prophetic iterator spec of str::chars; char::from_u32 assumed specification; termination unproved.",
         technique="contract-based deductive verification (Verus loop invariant over the prophetic Chars iterator, function extracted mechanically from /repo)",
         design="DESIGN.md section 5, C09"),
 })
@@ -37,7 +37,7 @@ CLAIMED.update({
 CLAIMED.update({
     "C12": dict(
         text="Deductive proof (Verus) on the real text of function_is_actually_in_use and compute_functions_actually_in_use: after the closure the published set contains a name if and only if it is reachable in the call tree from main or from a function marked interrupt (soundness by a reachability witness, completeness by closure of every added node plus coverage of every key of the function table).",
-        note="Partial: that every emitted call is recorded in the call tree (generate_function_call) is not under contract yet. Assumed: String as hash key (four axioms, A-spec-hash-str), vstd HashMap/HashSet specs; termination of the recursion unproved.",
+        note="The recording side is under contract too (U-call): every call statement compiled, from an ordinary or an inline function, is inserted into the call tree of the function being compiled. Assumed: String as hash key (four axioms, A-spec-hash-str), vstd HashMap/HashSet specs; termination of the recursion unproved.",
         technique="contract-based deductive verification (Verus: recursive function contract + loop invariants + induction lemma, functions extracted mechanically from /repo)",
         design="DESIGN.md section 5, C12"),
 })
@@ -45,8 +45,8 @@ CLAIMED.update({
 CLAIMED.update({
     "C10": dict(
         text="Kani (CBMC, bit-precise, full i32 domain, loop-free: complete) on the real bodies of the constant calculator's operator closures: every binary/unary operator returns the C value wherever C defines it in 32-bit int and an error (no panic, no wrapped value) elsewhere, failed operands propagate, division by zero is located at the operator; the three operator tables handed to the Pratt parser are run verbatim against a recording shim and compared with the ISO C precedence/associativity table; the generator's own folding of immediates (generate_arithm, generate_shift, neg/not/bnot arms) returns the same C values and an error (never a panic) for the undefined cases. Counterexamples are lifted to constant initialisers and replayed on the real compiler.",
-        note="pest PrattParser semantics assumed (A-pratt); oracle = C semantics written as i64 arithmetic / C99 division definition in the harness; sizeof and integer-literal parsing are not under contract yet; ternary sentinel collision is a recorded known finding.",
-        technique="contract-style full-domain model checking of extracted loop-free code (Kani harness per operator obligation) + verbatim table extraction",
+        note="pest PrattParser semantics assumed (A-pratt); oracle = C semantics written as i64 arithmetic / C99 division definition in the harness; parse_sizeof is verified (Verus) against pest shims: element count times element size for arrays, 2 for pointers and shorts, 1 for chars; integer-literal parsing is not under contract yet; ternary sentinel collision is a recorded known finding.",
+        technique="contract-style full-domain model checking of extracted loop-free code (Kani harness per operator obligation) + verbatim table extraction; Verus on parse_sizeof",
         design="DESIGN.md section 5, C10"),
 })
 
